@@ -346,8 +346,19 @@ class SpecLib:
         raise Unsupported("sequence repetition")
 
     def str_format(self, ex, fmt, args):
-        # only reached outside `raise` (messages are dropped there)
-        raise Unsupported("%-formatting outside an exception message")
+        # exception messages are dropped before they get here; what remains must be concrete
+        items = args.items if isinstance(args, VTuple) else [args]
+
+        def conc(v):
+            if isinstance(v, VSeq) and v.pyval is not None:
+                return v.pyval
+            if isinstance(v, VInt) and v.py() is not None:
+                return v.py()
+            raise Unsupported("%-formatting of a symbolic value outside an exception message")
+        if fmt.pyval is None:
+            raise Unsupported("%-formatting with a symbolic format")
+        vals = tuple(conc(x) for x in items)
+        return lift(fmt.pyval % (vals if isinstance(args, VTuple) else vals[0]))
 
     def inplace(self, ex, box, op, rhs):
         if box.kind == "list" and isinstance(op, ast.Add):
@@ -644,6 +655,42 @@ class SpecLib:
             raise Unsupported("list(%r)" % (v,))
         B_["list"] = b_list
 
+        def b_getattr(ex, a, kw):
+            obj, name = a[0], a[1]
+            if not (isinstance(name, VSeq) and name.pyval is not None):
+                raise Unsupported("getattr with a symbolic attribute name")
+            if len(a) > 2:
+                from vf.pyvc.interp import PyRaise
+                try:
+                    return ex.getattr(obj, name.pyval)
+                except PyRaise as pr:
+                    if issubclass(pr.exc.pycls, AttributeError):
+                        return a[2]
+                    raise
+            return ex.getattr(obj, name.pyval)
+        B_["getattr"] = b_getattr
+
+        def b_setattr(ex, a, kw):
+            obj, name, v = a
+            if not (isinstance(name, VSeq) and name.pyval is not None):
+                raise Unsupported("setattr with a symbolic attribute name")
+            ex.setattr(obj, name.pyval, v)
+            return NONE
+        B_["setattr"] = b_setattr
+
+        def b_str(ex, a, kw):
+            if not a:
+                return const_seq("str", "")
+            v = a[0]
+            if isinstance(v, VSeq) and v.kind == "str":
+                return v
+            if isinstance(v, VInt) and v.py() is not None:
+                return const_seq("str", str(v.py()))
+            if isinstance(v, VObj):
+                return ex.call(ex.getattr(v, "__str__"), [], {})
+            raise Unsupported("str(%r)" % (v,))
+        B_["str"] = b_str
+
         def b_bool(ex, a, kw):
             return VBool(ex.truth(a[0]))
         B_["bool"] = b_bool
@@ -671,6 +718,23 @@ class SpecLib:
             ex.lemma("law slice-extend: s[a:j] + [s[j]] == s[a:j+1]", f)
             return VBool(True)
         B_["law_slice_extend"] = law_slice_extend
+
+        def b_comp(ex, a, kw):
+            """comp(k, seq): the k-th list comprehension of the function under verification, as a function"""
+            k = a[0].py()
+            fn = ex.frames[0].func.name if ex.frames else None
+            for fr in ex.frames:
+                if fr.func is not None and fr.func.name in ex.world.comp_by_func:
+                    fn = fr.func.name
+            vf = ex.world.comp_by_func.get(fn, {}).get(k)
+            if vf is None:
+                raise Unsupported("comp(%d, ...): the comprehension has not been evaluated yet" % k)
+            arg = self.seqval(a[1])
+            r = self.seqval(ex.pure_call(vf, [arg], {}))
+            ex.define(z3.Length(r.t) == arg.length(), key=("comp-len", r.t.get_id()))
+            ex._keep.append(r.t)
+            return r
+        B_["comp"] = b_comp
 
         # ---- list methods
         def l_append(ex, a, kw):
@@ -861,9 +925,40 @@ class SpecLib:
             return VObj("Match", {"pat": VPy(pat), "subject": subj, "real": VPy(m)}, fresh_name("m"))
         ok = F_REMATCH(z3.IntVal(pid), z3.StringVal(how), subj.t)
         mo = VObj("Match", {"pat": VPy(pat), "subject": subj, "how": VPy(how)}, fresh_name("m"))
+        self._single_class_fact(ex, pat, how, subj, ok)
         for hook in self.regex_facts:
             hook(ex, self, pat, pid, how, subj, ok)
         return VOpt(z3.Not(ok), mo)
+
+    def _single_class_fact(self, ex, pat, how, subj, ok):
+        """patterns of the form  CLASS  or  CLASS+  under match(): the match succeeds iff the subject is
+        non-empty and its first character is in the class (character set taken from the interpreter)"""
+        if how != "match":
+            return
+        import re._parser as sp
+        from vf import rx
+        tree = list(sp.parse(pat.pattern, pat.flags))
+        if len(tree) != 1:
+            return
+        op, av = tree[0]
+        nm = str(op)
+        node = None
+        if nm in ("LITERAL", "NOT_LITERAL", "IN", "ANY"):
+            node = (op, av)
+        elif nm in ("MAX_REPEAT", "MIN_REPEAT") and av[0] >= 1 and len(av[2]) == 1 and \
+                str(av[2][0][0]) in ("LITERAL", "NOT_LITERAL", "IN", "ANY"):
+            node = av[2][0]
+        if node is None:
+            return
+        ranges = rx.atom_set(None, node, isinstance(pat.pattern, bytes), pat.flags)
+        if subj.view is not None:
+            c = subj.view[0][subj.view[1]]
+        else:
+            c = subj.t[0]
+        inclass = z3.Or(*[(c == lo) if lo == hi else z3.And(c >= lo, c <= hi) for lo, hi in ranges]) if ranges else z3.BoolVal(False)
+        ex.define(ok == z3.And(subj.length() >= 1, inclass))
+        self.use("re: a single-class pattern %r matches iff the first character is in the class (exact set from the interpreter)"
+                 % (pat.pattern,))
 
     def re_group(self, ex, mo, k):
         pat = mo.fields["pat"].obj
@@ -880,8 +975,11 @@ class SpecLib:
         return VOpt(F_REGROUPNONE(z3.IntVal(pid), z3.StringVal(how), z3.IntVal(k), subj.t), v)
 
     def py_int(self, ex, v):
-        self.use("int(text): uninterpreted py_int/py_is_int on the text (raises ValueError iff not py_is_int)")
+        self.use("int(text): uninterpreted py_int/py_is_int on the text (raises ValueError iff not py_is_int); "
+                 "int of a single ASCII digit character is its value")
         t = v.t
+        c = v.view[0][v.view[1]] if v.view is not None else t[0]
+        ex.define(z3.Implies(z3.And(v.length() == 1, c >= 48, c <= 57), z3.And(F_ISINT(t), F_PYINT(t) == c - 48)))
         if not ex.spec_mode and ex.branch(z3.Not(F_ISINT(t))):
             ex.raise_(ValueError)
         return VInt(F_PYINT(t))
